@@ -243,6 +243,20 @@ fn cmd_check(args: &[String]) {
     }
     cov.put("violations_of_other_properties_seen", other);
     cov.put("build", J::s(build_name()));
+    {
+        let mut dg = J::obj();
+        for (k, v) in &s.digests {
+            dg.put(k, J::s(&format!("{:016x}", v)));
+        }
+        cov.put("digests", dg);
+        if let Ok(path) = std::env::var("VERIF_DIGEST_OUT") {
+            let mut t = String::new();
+            for (k, v) in &s.digests {
+                t.push_str(&format!("{}\t{:016x}\n", k, v));
+            }
+            let _ = std::fs::write(path, t);
+        }
+    }
     let ev = J::obj()
         .set("property_id", J::s(&prop))
         .set("tier", J::s(if tier == Tier::Quick { "quick" } else { "thorough" }))
@@ -279,6 +293,29 @@ fn run_check(prop: &str, tier: Tier) -> CheckOut {
         ]
     };
     match prop {
+        "C17CORPUS" => {
+            // the deterministic corpus whose digests are compared across build configurations
+            let mut stats = Stats::new();
+            let mut vios = VioSet::default();
+            let mut add = |x: (Stats, VioSet)| {
+                stats.merge(&x.0);
+                vios.merge(x.1);
+            };
+            add(sweep::c03::run(tier));
+            add(sweep::c01::run(Tier::Quick));
+            add(sweep::c14::run(Tier::Quick));
+            add(sweep::c15::run(tier, "C15"));
+            add(sweep::c15::run(Tier::Quick, "C05"));
+            add(sweep::c16::run(Tier::Quick));
+            let (dplan, eplan) = c17_plans(tier);
+            let mut dor = xdec::Oracles::default();
+            dor.conform = true;
+            add(run_dec_plan(dplan, &dor, "C02", "C01"));
+            let mut eor = xenc::EOracles::default();
+            eor.conform = true;
+            add(run_enc_plan(eplan, &eor, "C04", "C03"));
+            return CheckOut { level: "exploration", stats, vios, rule: "C17 corpus".into(), assumptions: vec![], technique: "corpus digests".into() };
+        }
         "C13" => {
             let (stats, vios) = sweep::c13::run(tier);
             return CheckOut { level: "exploration", stats, vios, rule: "bounded-exhaustive enumeration of label-like byte strings (all strings of length <= 2/3, every 1-edit neighbour, case mask, padding and lengthening of all 228 labels, all short strings over the label alphabet); non-trivial = resolves to an encoding".into(), assumptions: sweep_assumptions("the frozen 228-label table in /verif/spec/labels.txt is the Standard's"), technique: "bounded-exhaustive enumeration against a reference implementation of get-an-encoding".into() };
